@@ -24,12 +24,29 @@ func exec(op string) (res string) {
 	if len(w) == 0 {
 		return "bad-op"
 	}
+	// a trailing placement word: where in memory the byte-string / string arguments lie (placed.go)
+	var pl *placement
+	if n := len(w); n > 1 && strings.HasPrefix(w[n-1], "@") {
+		if pl = parsePl(w[n-1]); pl == nil {
+			return "bad-op"
+		}
+		w = w[:n-1]
+		defer pl.release()
+	}
 	hx := func(i int) []byte {
 		b, err := vh.UnHex(w[i])
 		if err != nil {
 			panic("bad hex")
 		}
-		return b
+		return pl.bytes(i, b)
+	}
+	// a string argument (token strings), placed as a sub-string
+	sx := func(i int) string {
+		b, err := vh.UnHex(w[i])
+		if err != nil {
+			panic("bad hex")
+		}
+		return pl.str(i, string(b))
 	}
 	switch w[0] {
 	case "murmur":
@@ -50,11 +67,11 @@ func exec(op string) (res string) {
 	case "ordlt":
 		return fmt.Sprint(gocql.VerifHashLess("ordered", hx(1), hx(2)))
 	case "parsem", "parsemx":
-		return gocql.VerifParseToken("murmur3", string(hx(1)))
+		return gocql.VerifParseToken("murmur3", sx(1))
 	case "parser":
-		return gocql.VerifParseToken("random", string(hx(1)))
+		return gocql.VerifParseToken("random", sx(1))
 	case "lessm", "lessmx":
-		return fmt.Sprint(gocql.VerifTokenLess("murmur3", string(hx(1)), string(hx(2))))
+		return fmt.Sprint(gocql.VerifTokenLess("murmur3", sx(1), sx(2)))
 	case "hlessm":
 		return fmt.Sprint(gocql.VerifHashLess("murmur3", hx(1), hx(2)))
 	case "hlessr":
@@ -66,13 +83,17 @@ func exec(op string) (res string) {
 		}
 		return fmt.Sprint(gocql.VerifHashLess("random", hx(2), hx(4)))
 	case "rkm", "rkmx":
-		return parseRkm(w).run()
+		c := parseRkm(w)
+		c.pl = pl
+		return c.run()
 	case "rkn", "rknx":
-		return parseRkn(w).run()
+		c := parseRkn(w)
+		c.pl = pl
+		return c.run()
 	case "ringsort":
 		return execRingsort(w)
 	case "lessr":
-		return fmt.Sprint(gocql.VerifTokenLess("random", string(hx(1)), string(hx(2))))
+		return fmt.Sprint(gocql.VerifTokenLess("random", sx(1), sx(2)))
 	case "qrk", "qrke":
 		// qrk <c1> .. <cn> / <c1> .. <cn> / ...   one Query object re-bound step by step
 		// qrke <explicit> / <c1> .. <cn> / ...      the same with an explicit routing key set first
@@ -87,7 +108,7 @@ func exec(op string) (res string) {
 			}
 			rest = w[3:] // skip the explicit key and the first "/"
 		}
-		for _, t := range rest {
+		for ti, t := range rest {
 			if t == "/" {
 				steps = append(steps, cur)
 				cur = [][]byte{}
@@ -97,7 +118,7 @@ func exec(op string) (res string) {
 			if err != nil {
 				return "bad-op"
 			}
-			cur = append(cur, b)
+			cur = append(cur, pl.bytes(ti+1, b))
 		}
 		steps = append(steps, cur)
 		n := len(steps[0])
@@ -127,6 +148,26 @@ func exec(op string) (res string) {
 			}
 		}
 		return strings.Join(outs, " ")
+	case "rktok":
+		// rktok <c1> .. <cn>: the routing key of the blob components (createRoutingKey: ONE component is the
+		// caller's own slice, at the caller's alignment) and then its Murmur3 token, as the token-aware policy does
+		n := len(w) - 1
+		if n < 1 {
+			return "bad-op"
+		}
+		types := make([]gocql.TypeInfo, n)
+		idx := make([]int, n)
+		vals := make([]interface{}, n)
+		for i := 0; i < n; i++ {
+			types[i] = gocql.NewNativeType(4, gocql.TypeBlob, "")
+			idx[i] = n - 1 - i
+			vals[n-1-i] = hx(i + 1)
+		}
+		b, err := gocql.VerifCreateRoutingKey(types, idx, vals)
+		if err != nil {
+			return "err"
+		}
+		return gocql.VerifHash("murmur3", b)
 	case "rkey", "rkey-held":
 		n := len(w) - 1
 		types := make([]gocql.TypeInfo, n)
@@ -205,6 +246,13 @@ var boundaryTokens = []string{"-9223372036854775808", "-9223372036854775807", "-
 
 func boundaryToken(r *vh.Rng) string { return boundaryTokens[r.Intn(len(boundaryTokens))] }
 
+func minInt(a, b int) int {
+	if a < b {
+		return a
+	}
+	return b
+}
+
 func canonicalInt64(s string) bool {
 	v, err := strconv.ParseInt(s, 10, 64)
 	return err == nil && strconv.FormatInt(v, 10) == s
@@ -272,6 +320,92 @@ func main() {
 		k := genKey(r, 81+r.Intn(2000))
 		op := "murmur " + vh.Hex(k)
 		out.Case(op, exec(op), "murmur/long", true)
+	}
+	// PLACEMENT IN MEMORY (placed.go): the token is a function of the key's BYTES only. The same key at every
+	// address offset 0..15 (sub-slices of fresh / pooled buffers, sub-strings, copies), spare capacity and
+	// foreign bytes before and behind it: every length 0..96, then lengths around the multiples of 16, then long keys
+	for rep := 0; rep < mult; rep++ {
+		for n := 0; n <= 96; n++ {
+			k := genKey(r, n)
+			for off := 0; off < 16; off++ {
+				pl := genPl(r, off)
+				op := "murmur " + vh.Hex(k) + " " + pl
+				out.Case(op, exec(op), fmt.Sprintf("murmur@/%s/blocks%d", plClass(pl), minInt(n/16, 3)), n > 0)
+			}
+		}
+	}
+	for rep := 0; rep < 2*mult; rep++ {
+		for m := 1; m <= 32; m++ {
+			for d := -1; d <= 1; d++ {
+				pl := genPl(r, -1)
+				op := "murmur " + vh.Hex(genKey(r, 16*m+d)) + " " + pl
+				out.Case(op, exec(op), fmt.Sprintf("murmur@/%s/around16", plClass(pl)), true)
+			}
+		}
+	}
+	for i := 0; i < 100*mult; i++ {
+		pl := genPl(r, -1)
+		op := "murmur " + vh.Hex(genKey(r, 97+r.Intn(2000))) + " " + pl
+		out.Case(op, exec(op), fmt.Sprintf("murmur@/%s/long", plClass(pl)), true)
+	}
+	// the routing key of placed blob components and its token (ONE component: the caller's own slice is hashed)
+	for i := 0; i < 800*mult; i++ {
+		n := []int{1, 1, 1, 2, 3}[r.Intn(5)]
+		parts := make([]string, n)
+		for j := range parts {
+			ln := r.Intn(97)
+			if r.Intn(4) == 0 {
+				ln = 16*(1+r.Intn(8)) + r.Intn(3) - 1
+			}
+			parts[j] = vh.Hex(genKey(r, ln))
+		}
+		pl := genPl(r, -1)
+		op := "rktok " + strings.Join(parts, " ") + " " + pl
+		out.Case(op, exec(op), fmt.Sprintf("rktok/%d/%s", n, plClass(pl)), true)
+		if i%8 == 0 {
+			op = "rktok " + strings.Join(parts, " ")
+			out.Case(op, exec(op), fmt.Sprintf("rktok/%d/unplaced", n), true)
+		}
+	}
+	// the other partitioners, token comparison and token strings on placed arguments
+	for i := 0; i < 300*mult; i++ {
+		k := genKey(r, r.Intn(80))
+		d := md5.Sum(k)
+		pl := genPl(r, -1)
+		op := "random " + vh.Hex(d[:]) + " " + vh.Hex(k) + " " + pl
+		out.Case(op, exec(op), "random@/"+plClass(pl), true)
+		a, b := genKey(r, r.Intn(70)), genKey(r, r.Intn(70))
+		if r.Intn(4) == 0 {
+			b = append([]byte{}, a...)
+		}
+		pl = genPl(r, -1)
+		op = "hlessm " + vh.Hex(a) + " " + vh.Hex(b) + " " + pl
+		out.Case(op, exec(op), "hlessm@/"+plClass(pl), true)
+		if r.Intn(3) == 0 && len(b) > 0 {
+			b = append(append([]byte{}, a...), b[0])
+		}
+		op = "ordlt " + vh.Hex(a) + " " + vh.Hex(b) + " " + pl
+		out.Case(op, exec(op), "ordlt@/"+plClass(pl), true)
+		if i%3 == 0 {
+			da, db := md5.Sum(a), md5.Sum(b)
+			op = "hlessr " + vh.Hex(da[:]) + " " + vh.Hex(a) + " " + vh.Hex(db[:]) + " " + vh.Hex(b) + " " + pl
+			out.Case(op, exec(op), "hlessr@/"+plClass(pl), true)
+		}
+		s, t := fmt.Sprint(int64(r.U64())>>uint(r.Intn(64))), fmt.Sprint(int64(r.U64())>>uint(r.Intn(64)))
+		if i%4 == 0 {
+			s, t = boundaryToken(r), boundaryToken(r)
+		}
+		pl = genPl(r, -1)
+		op = "parsem " + vh.Hex([]byte(s)) + " " + pl
+		out.Case(op, exec(op), "parsem@/"+plClass(pl), true)
+		op = "lessm " + vh.Hex([]byte(s)) + " " + vh.Hex([]byte(t)) + " " + pl
+		out.Case(op, exec(op), "lessm@/"+plClass(pl), true)
+		s, t = natString(r), natString(r)
+		pl = genPl(r, -1)
+		op = "parser " + vh.Hex([]byte(s)) + " " + pl
+		out.Case(op, exec(op), "parser@/"+plClass(pl), true)
+		op = "lessr " + vh.Hex([]byte(s)) + " " + vh.Hex([]byte(t)) + " " + pl
+		out.Case(op, exec(op), "lessr@/"+plClass(pl), true)
 	}
 	if tier == "thorough" {
 		// exhaustive: for every tail length 1..15 and every position, each byte class, rest zero / 0x80
@@ -409,6 +543,11 @@ func main() {
 		}
 		op := c.op(name)
 		out.Case(op, exec(op), cls, true)
+		if i%5 == 0 {
+			// the same statement with its []byte / string values lying at odd addresses
+			op += " " + genPl(r, -1)
+			out.Case(op, exec(op), "rkm@/"+name, true)
+		}
 	}
 	for i := 0; i < 2000*mult; i++ {
 		s, t := natString(r), natString(r)
@@ -432,6 +571,14 @@ func main() {
 			op = "rkey-held " + strings.Join(parts, " ")
 			out.Case(op, exec(op), fmt.Sprintf("rkey-held/%d", n), true)
 		}
+		if i%4 == 2 {
+			// the components as sub-slices at odd addresses / of pooled buffers / string-backed
+			pl := genPl(r, -1)
+			op = "rkey " + strings.Join(parts, " ") + " " + pl
+			out.Case(op, exec(op), fmt.Sprintf("rkey@/%d/%s", n, plClass(pl)), true)
+			op = "rkey-held " + strings.Join(parts, " ") + " " + pl
+			out.Case(op, exec(op), fmt.Sprintf("rkey-held@/%d", n), true)
+		}
 		if i%4 == 1 {
 			// the same Query object re-bound 2..4 times (Query.Bind): every step's key is the key of THAT step's values
 			k := 2 + r.Intn(3)
@@ -448,6 +595,13 @@ func main() {
 			}
 			op = "qrk " + strings.Join(steps, " / ")
 			out.Case(op, exec(op), fmt.Sprintf("qrk/%d/steps%d", n, k), true)
+			if i%8 == 1 {
+				pl := genPl(r, -1)
+				op = "qrk " + strings.Join(steps, " / ") + " " + pl
+				out.Case(op, exec(op), fmt.Sprintf("qrk@/%d/steps%d", n, k), true)
+				op = "qrke " + vh.Hex(genKey(r, r.Intn(40))) + " / " + strings.Join(steps, " / ") + " " + pl
+				out.Case(op, exec(op), fmt.Sprintf("qrke@/%d/steps%d", n, k), true)
+			}
 			if i%16 == 1 {
 				op = "qrke " + vh.Hex(genKey(r, r.Intn(12))) + " / " + strings.Join(steps, " / ")
 				out.Case(op, exec(op), fmt.Sprintf("qrke/%d/steps%d", n, k), true)
@@ -463,6 +617,10 @@ func main() {
 		}
 		op := c.op(name)
 		out.Case(op, exec(op), cls, true)
+		if i%6 == 0 {
+			op += " " + genPl(r, -1)
+			out.Case(op, exec(op), "rkn@/"+name, true)
+		}
 	}
 	out.Close(nil)
 }
